@@ -382,6 +382,12 @@ struct BufferGuard {
 
 impl BufferGuard {
     pub fn leak(self) {
+        #[cfg(compio_verif)]
+        crate::verif::emit(
+            crate::verif::POOL_BUF,
+            self.buffer_id as u64,
+            crate::verif::pool::GUARD_LEAK,
+        );
         let mut this = ManuallyDrop::new(self);
         // SAFETY: we're taking ownership of self, so this function will be executed
         // at most once
@@ -391,6 +397,12 @@ impl BufferGuard {
 
 impl Drop for BufferGuard {
     fn drop(&mut self) {
+        #[cfg(compio_verif)]
+        crate::verif::emit(
+            crate::verif::POOL_BUF,
+            self.buffer_id as u64,
+            crate::verif::pool::GUARD_DROP,
+        );
         _ = self.pool.reset(self.buffer_id);
     }
 }
@@ -407,6 +419,14 @@ impl MultishotResult {
             pool: pool.clone(),
             buffer_id,
         });
+        #[cfg(compio_verif)]
+        if let Some(g) = &guard {
+            crate::verif::emit(
+                crate::verif::POOL_BUF,
+                g.buffer_id as u64,
+                crate::verif::pool::GUARD,
+            );
+        }
         Self {
             result,
             extra,
